@@ -88,6 +88,7 @@ def main():
     if not ck.build():
         ck.finish()
     ck.check_props()
+    ck.check_translation("apps")
     nmax = 4 if ck.quick else 6
     cases = []
     stream = list(G.collections(ck.rng, 500 if ck.quick else 5000, 2, nmax))
